@@ -5,5 +5,6 @@ import (
 	_ "verif/engines/coordpure"
 	_ "verif/engines/kvmodel"
 	_ "verif/engines/kvorder"
+	_ "verif/engines/repl"
 	_ "verif/engines/walmodel"
 )
